@@ -43,13 +43,29 @@ def attr(lang, name: str) -> str:
 
 
 def mod_cls(lang, t) -> typing.Tuple[str, str]:
+    """(module, class path) of the generated class, through the target language's own naming functions"""
     if getattr(t, "has_parent_service", False):
         parts = t.full_namespace.split(".")  # ns..., Svc
-        base = ".".join([attr(lang, p) for p in parts[:-1]] + [f"{attr(lang, parts[-1])}_{t.version.major}_{t.version.minor}"])
-        return base, f"{attr(lang, parts[-1])}_{t.version.major}_{t.version.minor}.{t.short_name}"
-    parts = t.full_name.split(".")
-    cls = f"{attr(lang, parts[-1])}_{t.version.major}_{t.version.minor}"
-    return ".".join([attr(lang, p) for p in parts[:-1]] + [cls]), cls
+        base = attr(lang, f"{parts[-1]}_{t.version.major}_{t.version.minor}")  # = filter_short_reference_name of the service
+        return ".".join([attr(lang, p) for p in parts[:-1]] + [base]), f"{base}.{t.short_name}"
+    cls = lang.filter_short_reference_name(t)
+    return ".".join([attr(lang, p) for p in t.full_namespace.split(".")] + [cls]), cls
+
+
+def mangled_fields(lang, t, _seen=None) -> typing.List[str]:
+    """fields (transitively) whose generated attribute name is subject to Python's private-name mangling inside a class
+    body (two leading underscores, not two trailing): such an attribute is not reachable under its generated name"""
+    out = []
+    for f in t.inner_type.fields_except_padding:
+        a = attr(lang, f.name)
+        if a.startswith("__") and not a.endswith("__"):
+            out.append(f"{t}.{f.name}")
+        dt = f.data_type
+        while isinstance(dt, pydsdl.ArrayType):
+            dt = dt.element_type
+        if isinstance(dt, pydsdl.CompositeType):
+            out += mangled_fields(lang, dt)
+    return out
 
 
 def np_dtype(dt) -> str:
@@ -350,4 +366,181 @@ def witness_py(types, workdir: pathlib.Path, direction: str, n_cases: int = 60):
         w["evaluations"] = i + 1
         seen.add(str(t))
         bad.append((t, w))
+    return bad, len(jobs), None
+
+
+# ---------------------------------------------------------------------------------------------------------------------
+# C18: data-object contract of the generated classes (bounded native stand-in)
+# ---------------------------------------------------------------------------------------------------------------------
+def _fplan(x: float, w: int) -> dict:
+    return {"k": "float", "w": w, "bits": _dbits(x)}
+
+
+def field_candidates(lang, dt) -> typing.List[typing.Tuple[typing.Any, str, str]]:
+    """(value for the runner, expected outcome 'stored' | 'ValueError', note) -- the expectation comes from the DSDL type"""
+    out: typing.List[typing.Tuple[typing.Any, str, str]] = []
+    if isinstance(dt, pydsdl.BooleanType):
+        return [(True, "stored", "True"), (False, "stored", "False")]
+    if isinstance(dt, pydsdl.IntegerType):
+        lo, hi = int(dt.inclusive_value_range.min), int(dt.inclusive_value_range.max)
+        return [(lo, "stored", "minimum"), (hi, "stored", "maximum"), (lo - 1, "ValueError", "minimum - 1"), (hi + 1, "ValueError", "maximum + 1"), (hi + 256, "ValueError", "maximum + 256")]
+    if isinstance(dt, pydsdl.FloatType):
+        w = dt.bit_length
+        if w == 64:
+            return [(_fplan(1.7e308, 64), "stored", "1.7e308"), (_fplan(math.inf, 64), "stored", "inf"), (_fplan(math.nan, 64), "stored", "nan")]
+        mx = 65504.0 if w == 16 else FLT_MAX
+        return [(_fplan(mx, w), "stored", "largest finite"), (_fplan(-mx, w), "stored", "smallest finite"), (_fplan(math.inf, w), "stored", "inf"), (_fplan(-math.inf, w), "stored", "-inf"),
+                (_fplan(math.nan, w), "stored", "nan"), (_fplan(0.1, w), "stored", "0.1"),
+                (_fplan(math.nextafter(mx, math.inf), w), "ValueError", "just above the largest finite"), (_fplan(-mx * 1.5, w), "ValueError", "-1.5 x largest finite"),
+                (_fplan(mx * 16.0, w), "ValueError", "16 x largest finite")]
+    if isinstance(dt, pydsdl.ArrayType):
+        cap = dt.capacity
+        fixed = isinstance(dt, pydsdl.FixedLengthArrayType)
+        et = dt.element_type
+        if isinstance(et, pydsdl.CompositeType):
+            m, c = mod_cls(lang, et)
+
+            def objs(n):
+                return {"k": "list", "items": [{"k": "default", "mod": m, "cls": c} for _ in range(n)]}
+            out = [(objs(cap), "stored", f"{cap} elements"), (objs(cap + 1), "ValueError", f"{cap + 1} elements")]
+            if fixed and cap > 0:
+                out.append((objs(cap - 1), "ValueError", f"{cap - 1} elements"))
+            elif not fixed:
+                out.append((objs(0), "stored", "0 elements"))
+            return out
+        ev: typing.Any = True if isinstance(et, pydsdl.BooleanType) else (1.5 if isinstance(et, pydsdl.FloatType) else 1)
+
+        def lst(n):
+            return {"k": "list", "items": [ev] * n}
+
+        def arr(n):
+            if isinstance(et, pydsdl.FloatType):
+                one = {16: 0x3C00, 32: 0x3F800000, 64: 0x3FF0000000000000}[et.bit_length]
+                return {"k": "arr", "dtype": np_dtype(et), "items": [{"k": "float", "w": et.bit_length, "bits": one}] * n}
+            return {"k": "arr", "dtype": np_dtype(et), "items": [{"k": "bool", "v": 1} if isinstance(et, pydsdl.BooleanType) else {"k": "int", "v": 1}] * n}
+        out = [(lst(cap), "stored", f"list of {cap}"), (lst(cap + 1), "ValueError", f"list of {cap + 1}"), (arr(cap), "stored", f"ndarray of {cap}"), (arr(cap + 1), "ValueError", f"ndarray of {cap + 1}"),
+               (arr(cap + 9), "ValueError", f"ndarray of {cap + 9}")]
+        if fixed and cap > 0:
+            out += [(lst(cap - 1), "ValueError", f"list of {cap - 1}"), (arr(cap - 1), "ValueError", f"ndarray of {cap - 1}"), (lst(0), "ValueError", "empty list")]
+        if not fixed:
+            out += [(lst(0), "stored", "empty list")]
+        if isinstance(et, pydsdl.UnsignedIntegerType) and et.bit_length <= 8:
+            for mut in (False, True):
+                out += [({"k": "bytes", "hex": "41" * cap, "mutable": mut}, "stored", f"{'bytearray' if mut else 'bytes'} of {cap}"),
+                        ({"k": "bytes", "hex": "41" * (cap + 1), "mutable": mut}, "ValueError", f"{'bytearray' if mut else 'bytes'} of {cap + 1}")]
+                if fixed and cap > 0:
+                    out.append(({"k": "bytes", "hex": "41" * (cap - 1), "mutable": mut}, "ValueError", f"{'bytearray' if mut else 'bytes'} of {cap - 1}"))
+        if getattr(dt, "string_like", False):
+            out += [({"k": "str", "v": "a" * cap}, "stored", f"ASCII str of {cap} characters"), ({"k": "str", "v": "a" * (cap + 1)}, "ValueError", f"ASCII str of {cap + 1} characters")]
+            k = cap // 2 + 1  # k two-byte characters: k <= cap characters but 2k > cap encoded bytes
+            if k <= cap:
+                out.append(({"k": "str", "v": "é" * k}, "ValueError", f"str of {k} two-byte characters = {2 * k} encoded bytes"))
+            if cap >= 2:
+                out.append(({"k": "str", "v": "é" * (cap // 2)}, "stored", f"str of {cap // 2} two-byte characters"))
+        return out
+    return []
+
+
+def data_object_checks(types, workdir: pathlib.Path, n_roundtrip: int = 40):
+    """-> (failures [(obligation name, witness dict)], evaluations, harness_error)"""
+    lang = py_lang()
+    rng = random.Random(18)
+    jobs: typing.List[dict] = []
+    meta: typing.List[tuple] = []
+    for t in types:
+        m, c = mod_cls(lang, t)
+        inner = t.inner_type
+        is_union = isinstance(inner, pydsdl.UnionType)
+        fields = list(inner.fields_except_padding)
+        opts = [attr(lang, f.name) for f in fields] if is_union else []
+        jobs.append({"job": "model", "mod": m, "cls": c})
+        meta.append(("model", t, None))
+        mg = mangled_fields(lang, t)
+        if mg:
+            # one dedicated obligation per mangled attribute (reported by the class that declares it); the other jobs of the
+            # classes that contain it would only repeat it
+            for q in mg:
+                if q.startswith(f"{t}."):
+                    fn = q[len(str(t)) + 1:]
+                    jobs.append({"job": "set", "mod": m, "cls": c, "attr": attr(lang, fn), "value": -1, "init": [], "options": []})
+                    meta.append(("mangled", t, fn))
+            continue
+        if is_union:
+            jobs.append({"job": "ctor", "mod": m, "cls": c, "kwargs": [], "options": opts})
+            meta.append(("ctor", t, ([], [opts[0]])))
+            for i, f in enumerate(fields):
+                v = gen_value(rng, f.data_type, "rand")
+                jobs.append({"job": "ctor", "mod": m, "cls": c, "kwargs": [[opts[i], value_plan(lang, f.data_type, v)]], "options": opts})
+                meta.append(("ctor", t, ([f.name], [opts[i]])))
+            if len(fields) > 1:
+                a, b = fields[0], fields[-1]
+                jobs.append({"job": "ctor", "mod": m, "cls": c, "options": opts,
+                             "kwargs": [[opts[0], value_plan(lang, a.data_type, gen_value(rng, a.data_type, "zero"))], [opts[-1], value_plan(lang, b.data_type, gen_value(rng, b.data_type, "zero"))]]})
+                meta.append(("ctor", t, ([a.name, b.name], "ValueError")))
+        for i, f in enumerate(fields):
+            for val, expect, note in field_candidates(lang, f.data_type):
+                inits = [[]]
+                if is_union and len(fields) > 1:  # the object holds ANOTHER option when the assignment is made
+                    o = fields[(i + 1) % len(fields)]
+                    inits = [[], [[attr(lang, o.name), value_plan(lang, o.data_type, gen_value(rng, o.data_type, "rand"))]]]
+                for init in inits:
+                    jobs.append({"job": "set", "mod": m, "cls": c, "attr": attr(lang, f.name), "value": val, "init": init, "options": opts})
+                    meta.append(("set", t, (f, val, expect, note, bool(init))))
+        for i in range(n_roundtrip):
+            v = gen_composite(rng, t, "zero" if i == 0 else "ones" if i == 1 else "rand")
+            jobs.append({"job": "builtin_roundtrip", "mod": m, "cls": c, "plan": value_plan(lang, t, v)})
+            meta.append(("rt", t, v))
+    res = run_jobs(workdir, jobs)
+    if "__stderr__" in res:
+        return [], 0, f"runner stopped early: {res['__stderr__']}"
+    bad: typing.List[typing.Tuple[str, dict]] = []
+    seen = set()
+
+    def add(name, w):
+        if name not in seen:
+            seen.add(name)
+            bad.append((name, w))
+    for i, (kind, t, x) in enumerate(meta):
+        r = res[i]
+        tn = str(t)
+        if kind == "mangled":
+            if r.get("res") != "ValueError":
+                add(f"native[py]:{tn}.{x}#attribute-is-reachable-under-its-generated-name",
+                    {"input": {"class": tn, "field": x, "statement": f"obj.{attr(lang, x)} = -1"},
+                     "why": f"the assignment is {r.get('res', r)} instead of being validated: inside the class body the attribute and the constructor keyword {attr(lang, x)!r} are private-name-mangled "
+                            f"(_{mod_cls(lang, t)[1]}{attr(lang, x)}), so the property cannot be reached under its generated name; get_attribute/set_attribute, to_builtin and update_from_builtin fail on it"})
+            continue
+        if kind == "model":
+            inner = t.inner_type
+            want = {"repr": str(t), "fields": [[str(f.data_type), f.name] for f in inner.fields], "extent": int(t.extent)}
+            if "exc" in r:
+                add(f"native[py]:{tn}#embedded-model-equals-the-source-model", {"input": {"class": tn}, "why": f"get_model raises {r['exc']}: {r['msg']}"})
+            elif any(r.get(k) != v for k, v in want.items()) or r.get("class_extent_bytes") != t.extent // 8 or not r.get("get_class_is_cls"):
+                add(f"native[py]:{tn}#embedded-model-equals-the-source-model", {"input": {"class": tn}, "why": f"generated class reports {r}, the source definition is {want}"})
+        elif kind == "ctor":
+            given, want = x
+            if want == "ValueError":
+                if r.get("res") != "ValueError":
+                    add(f"native[py]:{tn}#union-constructor-refuses-two-options", {"input": {"class": tn, "arguments": given}, "why": f"constructor with two options: {r}"})
+            elif "exc" in r or r.get("res") != "ok" or r.get("selected") != want:
+                add(f"native[py]:{tn}#union-holds-exactly-one-option", {"input": {"class": tn, "arguments": given}, "why": f"after construction the object holds {r.get('selected', r)}, expected {want}"})
+        elif kind == "set":
+            f, val, expect, note, other = x
+            inp = {"class": tn, "field": f.name, "assigned": note, "object_holds_another_option": other}
+            name = f"native[py]:{tn}.{f.name}#assignment-{'is-stored' if expect == 'stored' else 'outside-the-type-raises-ValueError-and-stores-nothing'}"
+            if "exc" in r:
+                add(name, {"input": inp, "why": f"raises {r['exc']}: {r['msg']} (expected {expect})"})
+            elif r["res"] != expect:
+                add(name, {"input": inp, "why": f"outcome {r['res']}, expected {expect}"})
+            elif expect == "ValueError" and (r["after"] != r["before"]):
+                add(name, {"input": inp, "why": f"the rejected assignment changed the object: serializes to {r['after']} (before: {r['before']})"})
+            elif isinstance(t.inner_type, pydsdl.UnionType) and ((expect == "stored" and r["selected"] != [attr(lang, f.name)]) or (expect == "ValueError" and len(r["selected"]) != 1)):
+                add(f"native[py]:{tn}#union-holds-exactly-one-option", {"input": inp, "why": f"after the assignment the union holds the options {r['selected']}"})
+            elif expect == "stored" and r["after"].startswith("<"):
+                add(name, {"input": inp, "why": f"the stored value cannot be serialized: {r['after']}"})
+        else:
+            if "exc" in r:
+                add(f"native[py]:{tn}#to_builtin-update_from_builtin-round-trip", {"input": {"object": x}, "why": f"raises {r['exc']}: {r['msg']}", "trace": r.get("tb", "")})
+            elif r["a"] != r["b"]:
+                add(f"native[py]:{tn}#to_builtin-update_from_builtin-round-trip", {"input": {"object": x, "builtin": r["builtin"]}, "why": f"serialize(update_from_builtin(T(), to_builtin(o))) = {r['b']}, serialize(o) = {r['a']}"})
     return bad, len(jobs), None
